@@ -7,6 +7,7 @@ import (
 	"hash/crc32"
 	"os"
 	"path/filepath"
+	"strings"
 	"testing"
 	"time"
 
@@ -526,10 +527,25 @@ func TestC05StaticTables(t *testing.T) {
 		o.ExplicitDefaults = rapid.Bool().Draw(t, "explicit")
 		f, _ := sgen.GenFeed(t, o)
 		mts, labels := sgen.Mutate(t, f.Tables(), rapid.IntRange(1, 8).Draw(t, "nEdits"), true)
+		if rapid.IntRange(0, 39).Draw(t, "sizeClass") == 0 {
+			// size classes: thousands of rows overall, or in one group (one trip's stop times, one shape, one service's dates)
+			n := rapid.SampledFrom([]int{1030, 2060, 4100, 8200, 16500}).Draw(t, "sizeN")
+			if rapid.Bool().Draw(t, "longGroup") {
+				mts = sgen.LongGroup(mts, n)
+				labels = append(labels, fmt.Sprintf("long-group-%d", n))
+			} else {
+				mts = sgen.Inflate(mts, n)
+				labels = append(labels, fmt.Sprintf("inflated-%d", n))
+			}
+		}
 		p, _ := sgen.GenPresentation(t, mts)
 		c := CaseStaticTables{Tables: mts, Pres: p, Inherit: rapid.Bool().Draw(t, "inherit"), Labels: labels}
 		ok, acc, err := c05RunStatic(sgen.Render(c.Tables, c.Pres), c.Inherit)
-		c05TablesRec.Eval(fmt.Sprintf("accepted=%v", ok))
+		sizeCls := ""
+		if len(labels) > 0 && (strings.HasPrefix(labels[len(labels)-1], "long-group-") || strings.HasPrefix(labels[len(labels)-1], "inflated-")) {
+			sizeCls = "size-class"
+		}
+		c05TablesRec.Eval(fmt.Sprintf("accepted=%v", ok), sizeCls)
 		if ok && acc > 0 {
 			c05TablesRec.NontrivialCase(vt.Fingerprint(c), func() any { return map[string]any{"edits": labels} })
 		}
